@@ -63,7 +63,7 @@ theorem source_pins_ok : AssertTable.sourcePins = [
   ("sevm.Path.append", "24af98fce5f27413"),
   ("sevm.Path.branch", "a207a0514b9fa270"),
   ("sevm.call.hevm_branch", "42efa3694c46b2f5"),
-  ("sevm.create_branch", "395aac441a5b65b0"),
+  ("sevm.create_branch", "b5e498b69301e76a"),
   ("sevm.run.delayed_reraise", "1ba99b6f9b7e2738"),
   ("sevm.run.except_FailCheatcode", "98302c7d4a45fbce"),
   ("sevm.run.except_InfeasiblePath", "5c9d2a2419bf56d7"),
